@@ -659,7 +659,7 @@ impl PersistBackend for FilePersist {
         crate::verif_hooks::point("persist.flush.batch_written");
         // Step 2: Update metadata and save atomically
         state.meta.add_batch(batch_ref);
-        state.buffer.clear();
+        let flushed: Vec<Update> = std::mem::take(&mut state.buffer);
 
         if let Err(e) = self.save_shard_meta(&state.meta) {
             // Metadata save failed - clean up the orphaned batch file
@@ -674,7 +674,9 @@ impl PersistBackend for FilePersist {
             #[cfg(feature = "verif-hooks")]
             crate::verif_hooks::before_lock("persist.flush.wal", &|| self.wal.try_lock().is_some());
             let mut wal = self.wal.lock();
-            wal.remove_shard_entries(shard)?;
+            // Only what the batch holds: a concurrent append may already have logged an
+            // update for this shard that is not in the buffer yet.
+            wal.remove_flushed_entries(shard, &flushed)?;
         }
 
         Ok(())
